@@ -64,7 +64,9 @@ func (c *Ctx) Hold(key, pos, msg string) { c.add(Holds, key, pos, msg, true) }
 func (c *Ctx) HoldTrivial(key, pos, msg string) { c.add(Holds, key, pos, msg, false) }
 
 // Viol records a violated obligation.
-func (c *Ctx) Viol(key, pos, msg string, path ...string) { c.add(Violated, key, pos, msg, true, path...) }
+func (c *Ctx) Viol(key, pos, msg string, path ...string) {
+	c.add(Violated, key, pos, msg, true, path...)
+}
 
 // Undec records an obligation the rule could not decide.
 func (c *Ctx) Undec(key, pos, msg string) { c.add(Undecided, key, pos, msg, true) }
@@ -182,15 +184,15 @@ func loadKnown(path string) ([]knownEntry, []string, error) {
 // ---------------------------------------------------------------- evidence
 
 type ruleSummary struct {
-	Rule       string         `json:"rule"`
-	Text       string         `json:"text"`
-	Instances  int            `json:"instances"`
-	MinFrozen  int            `json:"min_instances_frozen"`
-	Holds      int            `json:"holds"`
-	Violated   int            `json:"violated"`
-	Undecided  int            `json:"undecided"`
-	Known      int            `json:"known_findings"`
-	Facts      map[string]int `json:"engine_facts,omitempty"`
+	Rule      string         `json:"rule"`
+	Text      string         `json:"text"`
+	Instances int            `json:"instances"`
+	MinFrozen int            `json:"min_instances_frozen"`
+	Holds     int            `json:"holds"`
+	Violated  int            `json:"violated"`
+	Undecided int            `json:"undecided"`
+	Known     int            `json:"known_findings"`
+	Facts     map[string]int `json:"engine_facts,omitempty"`
 }
 
 type evidence struct {
